@@ -229,10 +229,11 @@ def check(run, prog, tier):
     # ---- U6 "in the order they were queued" holds for the datagram, not only for the list handed to send_sd: the message
     # that is built keeps the entries in the order of that list (C02's codec rules for the header copy and the writer)
     from .sdcodec import codec_keeps
-    with run.part("U6 order on the wire"):
-        codec_keeps(run, prog, tier, "U6", ("SOMEIPSDHeader.assign_option_indexes:shared-array-collected",
-                                            "SOMEIPSDHeader.build:flags-reserved-len32-entries-len32-options"),
-                    "the entries of one collection window leave in another order than they were queued")
+    if "U6" not in getattr(run, "without", ()):
+        with run.part("U6 order on the wire"):
+            codec_keeps(run, prog, tier, "U6", ("SOMEIPSDHeader.assign_option_indexes:shared-array-collected",
+                                                "SOMEIPSDHeader.build:flags-reserved-len32-entries-len32-options"),
+                        "the entries of one collection window leave in another order than they were queued")
 
 
 TIMING_ONLY = ("timer-uses-the-timeout", "deadline-not-moved")
@@ -243,7 +244,7 @@ def queue_exactly_once(run, prog, tier, rule, timing=False):
     another property (the announcer's answers / offers / stop-offers all travel through queue_send)"""
     import sys
     from .. import report
-    sub = report.subrun(sys.modules[__name__], "C15", prog, tier, run.seed)
+    sub = report.subrun(sys.modules[__name__], "C15", prog, tier, run.seed, without=("U6",))
     n = 0
     for o in sub.obs:
         if o.rule in ("U6", "OM") or (not timing and any(k in o.construct for k in TIMING_ONLY)):
